@@ -9,3 +9,5 @@ export CARGO_NET_OFFLINE=true
 /opt/veriftools/pyvenv/bin/python -m mirsym.front >/dev/null
 /opt/veriftools/pyvenv/bin/python -c "from mirsym import replay; print('replay binary:', replay.build())"
 /opt/veriftools/pyvenv/bin/python -m mirsym.validate || { echo "encoder validation FAILED"; exit 1; }
+# conformance of the interpreter's std models (informational: a gap makes checks on changed code INCONCLUSIVE, it does not invalidate them)
+/opt/veriftools/pyvenv/bin/python tools/idioms_check.py | tail -3 || echo "WARNING: std-model conformance corpus reports gaps"
